@@ -35,7 +35,7 @@ def _sub(scope, maxt, dev="{}", inv=INV, w=2):
 
 def run(ctx):
     q = ctx.quick()
-    pool = concurrent.futures.ThreadPoolExecutor(max_workers=4)
+    pool = concurrent.futures.ThreadPoolExecutor(max_workers=10)
     jobs = {}
     maxt = 2 if q else 3
     jobs["gen_sound"] = pool.submit(lib.run_tlc, ctx, "HandshakeGen", "HandshakeGen.cfg", _sub("sound", maxt), tag="gen_sound",
@@ -47,8 +47,11 @@ def run(ctx):
                                            tag="mc_neg_space_all_tampers", workers=4, timeout=900, env=JVM)
     for d in SOUND_DEVS:
         jobs["neg_" + d] = pool.submit(lib.run_tlc, ctx, "Handshake", "Handshake_mc.cfg", _sub("neg", 1, '{"%s"}' % d),
-                                       tag="neg_" + d, workers=2, timeout=900, env=JVM, expect_violation=True)
+                                       tag="neg_" + d, workers=1, timeout=900, env=JVM, expect_violation=True)
+    # compile the harness while TLC runs
+    warm = pool.submit(lambda: lib.run_go(ctx, "server", "TestVerifC06Warm", tag="warm", prefixes=("c06", "c07", "shared")))
     res = {k: f.result() for k, f in jobs.items()}
+    warm.result()
     pool.shutdown(wait=False)
     for name, r in res.items():
         if name.startswith("neg_"):
